@@ -13,7 +13,10 @@ type G struct {
 	id     int
 	frames []*Frame
 	done   bool
+	daemon bool // background goroutine whose steps commute with the others: scheduled first, without forking
 }
+
+var daemonPatterns = []string{"notificationsTrimmer).run", "wal.trimmer).run"}
 
 type lockState struct {
 	writer  int // goroutine id+1, 0 = none
@@ -129,6 +132,12 @@ func (m *Machine) schedule(s *State, includeCur bool) []*State {
 		s.fail("deadlock", m.describeBlocked(s))
 		return nil
 	}
+	for _, ci := range cands {
+		if s.gs[ci].daemon {
+			cands = []int{ci}
+			break
+		}
+	}
 	if len(cands) == 1 {
 		if cands[0] != s.cur {
 			s.switchTo(cands[0])
@@ -177,7 +186,7 @@ func (m *Machine) block(s *State, f *Frame) []*State {
 	return succ
 }
 
-var skipGoPatterns = []string{"notificationsTrimmer).run", "wal.trimmer).run", "(*github.com/oxia-db/oxia/server/wal.trimmer).run"}
+var skipGoPatterns = []string{}
 
 func (m *Machine) spawn(s *State, fn *ssa.Function, args, free []Value) {
 	if fn == nil || fn.Blocks == nil {
@@ -197,7 +206,14 @@ func (m *Machine) spawn(s *State, fn *ssa.Function, args, free []Value) {
 	for i, fv := range fn.FreeVars {
 		fr.env[fv] = free[i]
 	}
-	s.gs = append(s.gs, &G{id: len(s.gs), frames: []*Frame{fr}})
+	g := &G{id: len(s.gs), frames: []*Frame{fr}}
+	for _, p := range daemonPatterns {
+		if strings.Contains(fn.String(), p) {
+			g.daemon = true
+			m.stubs["background goroutine scheduled eagerly without forking (its steps commute): "+p]++
+		}
+	}
+	s.gs = append(s.gs, g)
 }
 
 func (m *Machine) execGo(s *State, f *Frame, x *ssa.Go) {
